@@ -61,7 +61,7 @@ func vfC05MvtLayer_N(tier int) int {
 	if tier == 0 {
 		return 5
 	}
-	return 7 // body=7: 145k paths, then an executor limitation (a symbolic value where a uint32 is expected); not registered
+	return 8
 }
 func vfC05MvtLayer_Label(c int) string { return "body=" + strconv.Itoa(c) }
 
